@@ -89,6 +89,28 @@ func GoEncodeRune(b []byte, r uint32) []byte {
 	}
 }
 
+func goSimpleEscape(e byte) (byte, bool) {
+	switch e {
+	case 'a':
+		return 7, true
+	case 'b':
+		return 8, true
+	case 'f':
+		return 12, true
+	case 'n':
+		return 10, true
+	case 'r':
+		return 13, true
+	case 't':
+		return 9, true
+	case 'v':
+		return 11, true
+	case '\\', '"', '\'':
+		return e, true
+	}
+	return 0, false
+}
+
 // GoUnquoteBody computes the byte string denoted by s.
 func GoUnquoteBody(s string) GoUnquoteResult {
 	res := GoUnquoteResult{Valid: true, Strict: true, Bytes: []byte{}}
@@ -116,8 +138,7 @@ func GoUnquoteBody(s string) GoUnquoteResult {
 			return GoUnquoteResult{RawInvalid: res.RawInvalid}
 		}
 		e := s[i+1]
-		simple := map[byte]byte{'a': 7, 'b': 8, 'f': 12, 'n': 10, 'r': 13, 't': 9, 'v': 11, '\\': '\\', '"': '"', '\'': '\''}
-		if v, ok := simple[e]; ok {
+		if v, ok := goSimpleEscape(e); ok {
 			if e == '\'' {
 				res.Strict = false
 			}
